@@ -2,6 +2,7 @@ package schema
 
 import (
 	"fmt"
+	"sort"
 
 	"github.com/jsightapi/jsight-schema-go-library/bytes"
 	"github.com/jsightapi/jsight-schema-go-library/errors"
@@ -41,6 +42,45 @@ func (s Schema) Type(name string) (*Schema, errors.Err) {
 		return t.schema, nil
 	}
 	return nil, errors.Format(errors.ErrTypeNotFound, name)
+}
+
+// TypeNames returns the names of all types in a stable order: named types by
+// name, then the unnamed ones (whose names are derived from pointer values) by
+// the place in the source they were created from. Iterating the types through
+// this list makes the result (in particular, which of several errors is
+// reported) independent of Go's randomized map iteration order and of memory
+// addresses.
+func (s Schema) TypeNames() []string {
+	names := make([]string, 0, len(s.types))
+	for name := range s.types {
+		names = append(names, name)
+	}
+	unnamed := func(n string) bool { return len(n) > 0 && n[0] == '#' }
+	sort.Slice(names, func(i, j int) bool {
+		a, b := names[i], names[j]
+		if unnamed(a) != unnamed(b) {
+			return !unnamed(a)
+		}
+		if !unnamed(a) {
+			return a < b
+		}
+		ta, tb := s.types[a], s.types[b]
+		fa, fb := "", ""
+		if ta.rootFile != nil {
+			fa = ta.rootFile.Name()
+		}
+		if tb.rootFile != nil {
+			fb = tb.rootFile.Name()
+		}
+		if fa != fb {
+			return fa < fb
+		}
+		if ta.begin != tb.begin {
+			return ta.begin < tb.begin
+		}
+		return a < b
+	})
+	return names
 }
 
 func (s Schema) RootNode() Node {
